@@ -10,6 +10,8 @@ import Cascette.Proofs.Encoding
 import Cascette.Proofs.ArchiveIndex
 import Cascette.Proofs.RootFile
 import Cascette.Proofs.TvfsPath
+import Cascette.Proofs.TvfsTables
+import Cascette.Proofs.GroupMerge
 import Cascette.Proofs.Resolver
 namespace Cascette.Props.C03
 open Cascette.Model.Paged Cascette.Model.Encoding Cascette.Proofs.Paged Cascette.Proofs.Encoding
@@ -565,6 +567,94 @@ open Cascette.Model.TvfsPath Cascette.Proofs.TvfsPath in
 /-- non-vacuity: a two-level tree (dir/{aa,b}) meets the hypotheses -/
 example : GoodL [Node.mk [100, 105, 114] [Node.mk [97, 97] [] (some 14), Node.mk [98] [] (some 0)] none] := by
   simp [GoodL, Good, GoodName, buildDir, buildEntry, frags, be32]
+
+/-! ### archive group merged from several archive indices (`build_merged`) -/
+
+open Cascette.Model.ArchiveIndex Cascette.Proofs.GroupMerge in
+/-- **group_merge_no_key_lost.** The k-way heap merge of `build_merged` — pop the smallest head
+(ties to the lowest source), ALWAYS advance that source's cursor, skip the record when its key equals
+the previous output key — loses no key: for any number of source archive indices with any entries
+(no sortedness or distinctness needed), every key of every source is the key of a merged record. -/
+theorem group_merge_no_key_lost (srcs : List Src) (s : Src) (hs : s ∈ srcs) (e : Entry) (he : e ∈ s.2) :
+    e.key ∈ (kmerge (totalLen srcs + 1) srcs none).map (·.key) := by
+  rcases kmerge_no_key_lost (totalLen srcs + 1) srcs none (by omega) s hs e he with h | h
+  · exact h
+  · cases h
+
+open Cascette.Model.ArchiveIndex Cascette.Proofs.GroupMerge in
+/-- **group_merge_sound.** Every record of the merged group is an inserted one: key, size and offset
+(as u32) of an entry of one of the sources, with THAT source's archive number. -/
+theorem group_merge_sound (srcs : List Src) (g : GEntry) (hg : g ∈ kmerge (totalLen srcs + 1) srcs none) :
+    ∃ s ∈ srcs, ∃ e ∈ s.2, g = { key := e.key, archive := s.1, offset := e.offset % 2 ^ 32, size := e.size } :=
+  kmerge_sound _ srcs none g hg
+
+open Cascette.Model.ArchiveIndex in
+/-- TEST (kernel-evaluated instance, the shape of the seeded change C03-1b): archive 7 = {10, 20, 30},
+archive 9 = {20, 40, 50}. The shared key 20 is emitted once with the FIRST source's value and the
+entries of archive 9 after the skipped duplicate (40, 50) are all there. -/
+example :
+    kmerge 7 [(7, [⟨[0x10], 1, 100, none⟩, ⟨[0x20], 2, 200, none⟩, ⟨[0x30], 3, 300, none⟩]),
+              (9, [⟨[0x20], 22, 2200, none⟩, ⟨[0x40], 4, 400, none⟩, ⟨[0x50], 5, 500, none⟩])] none =
+      [⟨[0x10], 7, 100, 1⟩, ⟨[0x20], 7, 200, 2⟩, ⟨[0x30], 7, 300, 3⟩, ⟨[0x40], 9, 400, 4⟩, ⟨[0x50], 9, 500, 5⟩] := by
+  decide
+
+/-! ### TVFS tables: builder widths, container / VFS round trips, resolution -/
+
+open Cascette.Model.TvfsTables Cascette.Proofs.TvfsTables in
+/-- **tvfs_widen_fixed.** For EVERY flag combination, EST size and file count (n·30 < 2^32) the
+widening loop of `TvfsBuilder::build` ends with a header under which `cft_entry_size()` is exactly
+the entry size the builder used for the offsets it stored, and whose `cft_table_size` is `n` such
+entries: builder, serializer and parser use one stride and one offset width. (The pinned tree
+computed the size in two fixed passes and the EST size afterwards; the counter-examples — 2731 files
+with INCLUDE_CKEY|PATCH_SUPPORT, an EST above 255 bytes — are corpus cases of the repaired defect.) -/
+theorem tvfs_widen_fixed (fl : Flags) (estSize n : Nat) (hn : n * 30 < 4294967296) :
+    (layout fl estSize n).1.entrySize = (layout fl estSize n).2 ∧
+    (layout fl estSize n).1.cftSize = n * (layout fl estSize n).2 ∧
+    (layout fl estSize n).1.fl = fl ∧ (layout fl estSize n).1.estSize = estSize :=
+  widen_fixed n hn { fl := fl, cftSize := 0, estSize := estSize } rfl
+
+open Cascette.Model.TvfsTables in
+/-- TEST (kernel-evaluated): INCLUDE_CKEY|PATCH_SUPPORT at the 64 KiB crossing — 2730 files stay at
+24-byte entries with 2-byte offsets, 2731 files need three rounds: 25-byte entries, 3-byte offsets. -/
+example : (layout ⟨true, false, true⟩ 0 2730).2 = 24 ∧ (layout ⟨true, false, true⟩ 0 2730).1.cftOffs = 2 ∧
+    (layout ⟨true, false, true⟩ 0 2731).2 = 25 ∧ (layout ⟨true, false, true⟩ 0 2731).1.cftOffs = 3 ∧
+    (layout ⟨true, true, true⟩ 300 11).2 = 26 := by decide
+
+open Cascette.Model.TvfsPath Cascette.Model.TvfsTables Cascette.Proofs.TvfsTables in
+/-- **tvfs_cft_roundtrip.** `ContainerFileTable::parse (build entries)` under one header lists exactly
+the inserted records — EKey and content key cut / zero-padded to 9 bytes, encoded size, EST index in
+its field width, unset patch offset — at offsets `i * entry_size`, for every flag combination and
+any number of entries. -/
+theorem tvfs_cft_roundtrip (h : Hdr) (fs : List FileRec) (off fuel : Nat)
+    (hsz : ∀ f ∈ fs, f.esize < 4294967296) (hf : fs.length < fuel) :
+    cftParse h fuel off (fs.flatMap (cftWrite h)) = storedFrom h off fs :=
+  cftParse_build h fs off fuel hsz hf
+
+open Cascette.Model.TvfsPath Cascette.Model.TvfsTables Cascette.Proofs.TvfsTables in
+/-- **tvfs_vfs_roundtrip.** `VfsTable::parse` of the builder's one-span entries under the same offset
+width (1..4 bytes) lists exactly the written entries at offsets `i * (9 + w)`. -/
+theorem tvfs_vfs_roundtrip {α : Type} (w : Nat) (h1 : 1 ≤ w) (h4 : w ≤ 4) (cs co : α → Nat) (l : List α)
+    (pos fuel : Nat) (hsz : ∀ a ∈ l, cs a < 4294967296) (hf : l.length < fuel) :
+    vfsLoop w fuel pos (l.flatMap fun a => vfsWrite w (cs a) (co a)) = some (vfsStored w cs co pos l) :=
+  vfsLoop_build w h1 h4 cs co l pos fuel hsz hf
+
+open Cascette.Model.TvfsPath Cascette.Model.TvfsTables Cascette.Proofs.TvfsTables in
+/-- **tvfs_tables_resolve.** For EVERY builder flag combination (INCLUDE_CKEY, ENCODING_SPEC,
+PATCH_SUPPORT), any EST strings and any set of files (count·30 < 2^32, sizes below 2^32): when the
+built manifest parses, the parsed header has the builder's entry size, and the VFS offset
+`i * (9 + w)` that the builder stores in the path tree for the `i`-th file in path order resolves —
+VFS entry AT that offset → its span → container entry AT the span's offset — to exactly that
+file's record as inserted. (Path string → VFS offset is `tvfs_path_roundtrip_partial`; the trie
+construction from the path list is tied by the run.) -/
+theorem tvfs_tables_resolve (flags : Nat) (specs : List Bytes) (input : List FileRec) (b : Built)
+    (hb : buildParse flags specs input = .ok b) (hn : input.length * 30 < 4294967296)
+    (hsz : ∀ f ∈ input, f.esize < 4294967296 ∧ f.csize < 4294967296) :
+    let files := sortFiles input
+    let lay := layout (Flags.ofNat flags) (((estBytes (Flags.ofNat flags) specs).map (·.length)).getD 0) files.length
+    b.hdr = lay.1 ∧ b.hdr.entrySize = lay.2 ∧
+    ∀ (i : Nat) (hi : i < files.length),
+      b.resolveOff (i * (9 + lay.1.cftOffs)) = some (storedC b.hdr (i * lay.2) files[i]) :=
+  tables_resolve flags specs input b hb hn hsz
 
 example : ¬ Cascette.Proofs.RootFile.Ambiguous 15 0 ∧ ¬ Cascette.Proofs.RootFile.Ambiguous 100 3 ∧
     ¬ Cascette.Proofs.RootFile.Ambiguous 50 10 := by
